@@ -1068,4 +1068,157 @@ theorem inhOf_eq_of_sound_fix {s1 s2 : State} (hd : defOf s1 = defOf s2)
     rw [← hd] at hn
     exact fix_complete h1 f1 n c l hn
 
+/-! ## a new definition that is not cyclic does not put the class on its own list -/
+
+/-- reachability in the class graph `D'` extended with the edges the class `a` had in the old graph `D`
+    (while the dependants of a redefined class are stale their lists still follow the old edges) -/
+inductive ReachU (D D' : Name → Option ClassDef) (a : Name) : Name → Name → Prop
+  | refl (c : Name) : ReachU D D' a c c
+  | step {c x k : Name} {d : ClassDef} : D' c = some d → x ∈ d.supers → ReachU D D' a x k → ReachU D D' a c k
+  | old {x k : Name} {d : ClassDef} : D a = some d → x ∈ d.supers → ReachU D D' a x k → ReachU D D' a a k
+
+/-- a path that ends in `a` can be cut at its first visit of `a`: it uses no edge out of `a` -/
+theorem reach_of_reachU {D D' : Name → Option ClassDef} {a x k : Name} (h : ReachU D D' a x k) (hk : k = a) :
+    Reach D' x a := by
+  induction h with
+  | refl c => subst hk; exact Reach.refl _
+  | step hd hx _ ih => exact Reach.step hd hx (ih hk)
+  | old _ _ _ _ => exact Reach.refl _
+
+theorem reachU_of_reach {D : Name → Option ClassDef} {a : Name} {d' : ClassDef} {c k : Name}
+    (h : Reach D c k) : ReachU D (update D a d') a c k := by
+  induction h with
+  | refl c => exact ReachU.refl _
+  | @step c x k d hd hx _ ih =>
+    by_cases hca : c = a
+    · subst hca; exact ReachU.old hd hx ih
+    · exact ReachU.step (by simp [update, hca, hd]) hx ih
+
+/-- every element of a ready class's list is reachable from the class, and every element of the
+    list of `a` is reachable from one of its *new* direct superclasses -/
+def MemReach (D D' : Name → Option ClassDef) (a : Name) (d' : ClassDef) (s : State) : Prop :=
+  (∀ c l, inhOf s c = some l → ∀ k ∈ l, ReachU D D' a c k) ∧
+  (∀ l, inhOf s a = some l → ∀ k ∈ l, ∃ x ∈ d'.supers, ReachU D D' a x k)
+
+/-- the elements of a merged list, from the lists it was merged from -/
+theorem mem_merge {s : State} {d : ClassDef} {l : List Name} (hm : Clos.mergeSupers s d = some l) {k : Name}
+    (hk : k ∈ l) : k ∈ d.supers ∨ ∃ x ∈ d.supers, ∃ lx, inhOf s x = some lx ∧ k ∈ lx := by
+  unfold Clos.mergeSupers mergeWith at hm
+  cases hc : collect (inhOf s) d.supers with
+  | none => simp [hc] at hm
+  | some r =>
+    simp only [hc, Option.map_some, Option.some.injEq] at hm
+    subst hm
+    rcases List.mem_append.1 (mem_dedup.1 hk) with h | h
+    · exact Or.inl h
+    · exact Or.inr ((mem_collect hc).1 h)
+
+theorem memReach_tryReady {D D' : Name → Option ClassDef} {a : Name} {d' : ClassDef} {s : State}
+    (hD : defOf s = D') (ha : D' a = some d') (hs : MemReach D D' a d' s) (c : Name) :
+    MemReach D D' a d' (tryReady s c) := by
+  rcases tryReady_cases s c with h | ⟨e, l, hf, _, hm, h⟩
+  · rw [h]; exact hs
+  · rw [h]
+    have hdc : D' c = some e.defn := by rw [← hD]; exact defOf_of_find hf
+    have hmem : ∀ k ∈ l, (∃ x ∈ e.defn.supers, ReachU D D' a x k) := by
+      intro k hk
+      rcases mem_merge hm hk with h1 | ⟨x, hx, lx, hlx, hkx⟩
+      · exact ⟨k, h1, ReachU.refl _⟩
+      · exact ⟨x, hx, hs.1 x lx hlx k hkx⟩
+    constructor
+    · intro c' l' hc' k hk
+      by_cases hcc : c' = c
+      · subst hcc
+        rw [inhOf_setInh_self s _ hf] at hc'
+        injection hc' with hc'; subst hc'
+        obtain ⟨x, hx, hr⟩ := hmem k hk
+        exact ReachU.step hdc hx hr
+      · rw [inhOf_setInh_ne s _ hcc] at hc'
+        exact hs.1 c' l' hc' k hk
+    · intro l' hl' k hk
+      by_cases hac : a = c
+      · subst hac
+        rw [inhOf_setInh_self s _ hf] at hl'
+        injection hl' with hl'; subst hl'
+        have : e.defn = d' := by rw [ha] at hdc; exact (Option.some.inj hdc).symm
+        rw [← this]
+        exact hmem k hk
+      · rw [inhOf_setInh_ne s _ hac] at hl'
+        exact hs.2 l' hl' k hk
+
+theorem memReach_foldl {D D' : Name → Option ClassDef} {a : Name} {d' : ClassDef}
+    (ha : D' a = some d') : ∀ (cs : List Name) {s : State}, defOf s = D' → MemReach D D' a d' s →
+    MemReach D D' a d' (cs.foldl tryReady s)
+  | [], _, _, hs => hs
+  | c :: cs, s, hD, hs => by
+    simp only [List.foldl_cons]
+    exact memReach_foldl ha cs (by rw [← hD]; exact funext (defOf_tryReady s c)) (memReach_tryReady hD ha hs c)
+
+/-- the new class object merged against the old (sound) table and registered -/
+theorem memReach_regE {s : State} (hs : Sound s) (a : Name) (d' : ClassDef) :
+    MemReach (defOf s) (update (defOf s) a d') a d'
+      (regE s { name := a, defn := d', inh := Clos.mergeSupers s d' }) := by
+  have hold : ∀ c l, inhOf s c = some l → ∀ k ∈ l, ReachU (defOf s) (update (defOf s) a d') a c k := by
+    intro c l hc k hk
+    obtain ⟨n, hn⟩ := hs c l hc
+    exact reachU_of_reach (reach_of_mem_spec hn (List.mem_cons_of_mem _ hk))
+  have hnew : ∀ l, Clos.mergeSupers s d' = some l → ∀ k ∈ l,
+      ∃ x ∈ d'.supers, ReachU (defOf s) (update (defOf s) a d') a x k := by
+    intro l hm k hk
+    rcases mem_merge hm hk with h1 | ⟨x, hx, lx, hlx, hkx⟩
+    · exact ⟨k, h1, ReachU.refl _⟩
+    · exact ⟨x, hx, hold x lx hlx k hkx⟩
+  have hinh : ∀ c, inhOf (regE s { name := a, defn := d', inh := Clos.mergeSupers s d' }) c =
+      if c = a then Clos.mergeSupers s d' else inhOf s c := by
+    intro c
+    unfold inhOf
+    rw [find_regE]
+    by_cases hca : c = a <;> simp [hca]
+  constructor
+  · intro c l hc k hk
+    rw [hinh] at hc
+    by_cases hca : c = a
+    · subst hca
+      simp only [if_true] at hc
+      obtain ⟨x, hx, hr⟩ := hnew l hc k hk
+      exact ReachU.step (by simp [update]) hx hr
+    · simp only [hca, if_false] at hc
+      exact hold c l hc k hk
+  · intro l hl k hk
+    rw [hinh] at hl
+    simp only [if_true] at hl
+    exact hnew l hl k hk
+
+/-- a new definition whose direct superclasses do not reach the class in the new graph does not
+    put the class on its own list -/
+theorem not_self_of_acyclic {D D' : Name → Option ClassDef} {a : Name} {d' : ClassDef} {s : State}
+    (hs : MemReach D D' a d' s) (hac : ∀ x ∈ d'.supers, ¬ Reach D' x a) :
+    ∀ l, inhOf s a = some l → a ∉ l := by
+  intro l hl hal
+  obtain ⟨x, hx, hr⟩ := hs.2 l hl a hal
+  exact hac x hx (reach_of_reachU hr rfl)
+
+/-- the order of operations of DefStandardClass at the level of the hand model, from a sound state:
+    the result is sound again and has the new definition in force — when the new definition is not
+    cyclic (its direct superclasses do not reach the class in the new graph) -/
+theorem goOrder_sound {s0 : State} (hs : Sound s0) (a : Name) (d : ClassDef) (cs cs' : List Name)
+    (hac : ∀ x ∈ d.supers, ¬ Reach (update (defOf s0) a d) x a) :
+    Sound (cs'.foldl tryReady (invalidateEx (cs.foldl tryReady
+      (regE s0 { name := a, defn := d, inh := Clos.mergeSupers s0 d })) a)) ∧
+    defOf (cs'.foldl tryReady (invalidateEx (cs.foldl tryReady
+      (regE s0 { name := a, defn := d, inh := Clos.mergeSupers s0 d })) a)) = update (defOf s0) a d := by
+  have hd1 : defOf (regE s0 { name := a, defn := d, inh := Clos.mergeSupers s0 d }) = update (defOf s0) a d :=
+    defOf_regE s0 _
+  have hd2 : defOf (cs.foldl tryReady (regE s0 { name := a, defn := d, inh := Clos.mergeSupers s0 d }))
+      = update (defOf s0) a d := by
+    rw [← hd1]; exact funext (foldl_tryReady_defOf cs _)
+  have hsx : SoundEx a (cs.foldl tryReady (regE s0 { name := a, defn := d, inh := Clos.mergeSupers s0 d })) :=
+    foldl_tryReady_soundEx cs (regE_soundEx hs a d)
+  have hmr := memReach_foldl (D := defOf s0) (D' := update (defOf s0) a d) (a := a) (d' := d)
+    (by simp [update]) cs hd1 (memReach_regE hs a d)
+  have hself := not_self_of_acyclic hmr hac
+  refine ⟨foldl_tryReady_sound cs' (invalidateEx_sound hsx hself), ?_⟩
+  funext k
+  rw [foldl_tryReady_defOf, defOf_invalidateEx, hd2]
+
 end SlipVerif.ClosGo
